@@ -422,11 +422,30 @@ func (g *gen) typ(v visible, sc *scope, depth int) *Type {
 		return &Type{Ref: Ref{Mod: "", Name: simpleTypes[t.Intn(len(simpleTypes))]}}
 	case 1:
 		lo := t.Range(0, 50)
-		return &Type{Ref: Ref{Name: []string{"int32", "uint8", "int64"}[t.Intn(3)]}, Range: fmt.Sprintf("%d..%d", lo, lo+t.Range(0, 60))}
+		ty := &Type{Ref: Ref{Name: []string{"int32", "uint8", "int64"}[t.Intn(3)]}, Range: fmt.Sprintf("%d..%d", lo, lo+t.Range(0, 60))}
+		switch t.Weighted(6, 1, 1, 1, 1) {
+		case 1:
+			ty.Range = fmt.Sprintf("min..%d", lo+60)
+		case 2:
+			ty.Range = fmt.Sprintf("%d..max", lo)
+		case 3:
+			ty.Range = fmt.Sprintf("%d..%d|%d..max", lo, lo+10, lo+20+t.Range(0, 30))
+		case 4:
+			ty.Range = fmt.Sprintf("min..%d | %d | %d..%d", lo, lo+5, lo+7, lo+60)
+		}
+		return ty
 	case 2:
 		ty := &Type{Ref: Ref{Mod: "", Name: "string"}}
 		if t.Chance(1, 2) {
 			ty.Length = fmt.Sprintf("%d..%d", t.Range(0, 4), t.Range(5, 40))
+			switch t.Weighted(6, 1, 1, 1) {
+			case 1:
+				ty.Length = fmt.Sprintf("%d..max", t.Range(0, 4))
+			case 2:
+				ty.Length = fmt.Sprintf("min..%d", t.Range(5, 40))
+			case 3:
+				ty.Length = fmt.Sprintf("%d|%d..max", t.Range(0, 4), t.Range(5, 40))
+			}
 		}
 		if t.Chance(1, 2) {
 			ty.Patterns = append(ty.Patterns, []string{"[a-z]+", "[0-9]*", "a|b", ".*x.*"}[t.Intn(4)])
@@ -458,9 +477,23 @@ func (g *gen) typ(v visible, sc *scope, depth int) *Type {
 		return ty
 	case 5:
 		ty := &Type{Ref: Ref{Mod: "", Name: "union"}}
-		kinds := t.Perm(4)
-		for k := 0; k < 2; k++ {
+		nk := 4
+		if len(tds) > 0 {
+			nk++
+		}
+		if len(v.idents) > 0 {
+			nk++
+		}
+		kinds := t.Perm(nk)
+		for k := 0; k < 2+t.Weighted(4, 1); k++ {
 			switch kinds[k] {
+			case 4, 5:
+				if kinds[k] == 4 && len(tds) > 0 {
+					ty.Union = append(ty.Union, &Type{Ref: tds[t.Intn(len(tds))]})
+				} else {
+					b := v.idents[t.Intn(len(v.idents))]
+					ty.Union = append(ty.Union, &Type{Ref: Ref{Mod: "", Name: "identityref"}, Base: &b})
+				}
 			case 0:
 				ty.Union = append(ty.Union, &Type{Ref: Ref{Mod: "", Name: "string"}})
 			case 1:
@@ -475,7 +508,11 @@ func (g *gen) typ(v visible, sc *scope, depth int) *Type {
 		}
 		return ty
 	case 6:
-		return &Type{Ref: Ref{Mod: "", Name: "decimal64"}, FractionDigits: t.Range(1, 18)}
+		ty := &Type{Ref: Ref{Mod: "", Name: "decimal64"}, FractionDigits: t.Range(1, 18)}
+		if ty.FractionDigits <= 4 && t.Chance(1, 3) {
+			ty.Range = []string{"1.5..max", "min..99.9", "-3.2..7.1|10..max"}[t.Intn(3)]
+		}
+		return ty
 	case 7:
 		return &Type{Ref: Ref{Mod: "", Name: "leafref"}, Path: "../" + g.id("x")}
 	case 8:
@@ -709,7 +746,18 @@ func (g *gen) node(mi int, m *Mod, sc *scope, where string, depth int) *Node {
 		if g.wantInvalid(InvUnknownType) {
 			n.Type = &Type{Ref: Ref{Mod: m.Name, Name: g.id("nosuchtype")}}
 		} else if g.wantInvalid(InvBadRange) {
-			switch t.Intn(6) {
+			switch t.Intn(10) {
+			case 6:
+				// min / max with nothing to stand for: the base has no range
+				n.Type = &Type{Ref: Ref{Mod: "", Name: "string"}, Range: "1000..max"}
+			case 7:
+				n.Type = &Type{Ref: Ref{Mod: "", Name: "boolean"}, Range: "min..1000"}
+			case 8:
+				n.Type = &Type{Ref: Ref{Mod: "", Name: "union"}, Range: "1000..max", Union: []*Type{{Ref: Ref{Name: "string"}}, {Ref: Ref{Name: "int8"}}}}
+			case 9:
+				td := &Typedef{Name: g.id("t"), Type: &Type{Ref: Ref{Mod: "", Name: "string"}}}
+				m.Typedefs = append(m.Typedefs, td)
+				n.Type = &Type{Ref: Ref{Mod: m.Name, Name: td.Name}, Range: "min..1000"}
 			case 0:
 				n.Type = &Type{Ref: Ref{Mod: "", Name: "int32"}, Range: "10..1"}
 			case 1:
